@@ -5,6 +5,7 @@ import DaskModel.Lemmas.BagOps
 import DaskModel.Lemmas.BagShuffle
 import DaskModel.Lemmas.BagShufflePerm
 import DaskModel.Lemmas.SubMultiset
+import DaskModel.Lemmas.BagFoldby
 /-! # C48 — bag operations equal their Python reference (theorems) -/
 namespace Dask.C48
 open Dask.BagReduce Dask.BagOps Dask.BagShuffle
@@ -646,5 +647,184 @@ theorem groupby_disk_spec (hash : Nat → Nat) (g : α → Nat) (nout : Nat) (pa
     · have : hash κ % nout = t' := by rw [← hgx]; exact beq_iff_eq.mp hx2
       simp [hy, this]
     · simp [hy]
+
+/-! ## foldby -/
+
+/-- the reference: for key `κ` the sequential fold of the elements with that key (`none`: no such element) -/
+def foldbySpec (key : α → Nat) (binop : β → α → β) (init : β) (q : List α) (κ : Nat) : Option β :=
+  if q.filter (fun x => key x == κ) = [] then none else some ((q.filter (fun x => key x == κ)).foldl binop init)
+
+/-- a dict (association list with distinct keys) that holds exactly the key-wise folds of `q` -/
+def FoldbyInv (key : α → Nat) (binop : β → α → β) (init : β) (q : List α) (r : List (Nat × β)) : Prop :=
+  (r.map (·.1)).Nodup ∧ ∀ κ, r.lookup κ = foldbySpec key binop init q κ
+
+theorem reduceBy_inv (key : α → Nat) (binop : β → α → β) (init : β) (p : List α) :
+    FoldbyInv key binop init p (reduceBy key binop init p) := by
+  refine ⟨foldl_update_nodup key binop init p [] (by simp), fun κ => ?_⟩
+  simp only [reduceBy, foldbySpec]
+  rw [lookup_foldl_update key binop init p [] κ]
+  simp
+
+theorem mergeDicts_inv (key : α → Nat) (binop : β → α → β) (init : β) (combine : β → β → β) (cinit : β)
+    (hunit : ∀ a, combine cinit a = a)
+    (hom : ∀ q₁ q₂ : List α, (q₁ ++ q₂).foldl binop init = combine (q₁.foldl binop init) (q₂.foldl binop init))
+    {qs : List (List α)} {rs : List (List (Nat × β))} (hall : All2 (FoldbyInv key binop init) qs rs) :
+    FoldbyInv key binop init qs.flatten (mergeDicts combine cinit rs) := by
+  refine ⟨foldl_update_nodup (fun kv : Nat × β => kv.1) (fun a kv => combine a kv.2) cinit rs.flatten [] (by simp),
+    fun κ => ?_⟩
+  simp only [mergeDicts]
+  rw [lookup_foldl_update (fun kv : Nat × β => kv.1) (fun a kv => combine a kv.2) cinit rs.flatten [] κ]
+  simp only [List.lookup_nil, Option.getD_none, foldbySpec, List.filter_flatten]
+  -- by induction over the inputs, carrying the elements of key κ seen so far
+  have key_lemma : ∀ (pre : List α) (acc : β), acc = (if pre = [] then cinit else pre.foldl binop init) →
+      ((rs.map (List.filter fun kv => kv.1 == κ)).flatten.foldl (fun a kv => combine a kv.2) acc =
+        (if pre ++ (qs.map (List.filter fun x => key x == κ)).flatten = [] then cinit
+         else (pre ++ (qs.map (List.filter fun x => key x == κ)).flatten).foldl binop init)) ∧
+      ((rs.map (List.filter fun kv => kv.1 == κ)).flatten = [] ↔
+        (qs.map (List.filter fun x => key x == κ)).flatten = []) := by
+    induction hall with
+    | nil => intro pre acc hacc; simp [hacc]
+    | @cons q r qs' rs' hqr _ ih =>
+      intro pre acc hacc
+      obtain ⟨hnd, hlook⟩ := hqr
+      have hfr := filter_key_of_nodup r hnd κ
+      rw [hlook κ] at hfr
+      simp only [foldbySpec] at hfr
+      simp only [List.map_cons, List.flatten_cons]
+      by_cases hq : q.filter (fun x => key x == κ) = []
+      · simp only [hq, if_true] at hfr
+        rw [hfr, hq]
+        simpa using ih pre acc hacc
+      · simp only [hq, if_false] at hfr
+        rw [hfr]
+        simp only [List.cons_append, List.nil_append, List.foldl_cons]
+        have hacc' : combine acc ((q.filter fun x => key x == κ).foldl binop init) =
+            (if pre ++ q.filter (fun x => key x == κ) = [] then cinit
+             else (pre ++ q.filter (fun x => key x == κ)).foldl binop init) := by
+          have hne : pre ++ q.filter (fun x => key x == κ) ≠ [] := by simp [hq]
+          simp only [hne, if_false]
+          by_cases hp : pre = []
+          · subst hp; simp [hacc, hunit]
+          · simp only [hp, if_false] at hacc
+            rw [hacc, ← hom]
+        obtain ⟨i1, _⟩ := ih (pre ++ q.filter (fun x => key x == κ)) _ hacc'
+        refine ⟨by rw [i1, List.append_assoc], ?_⟩
+        simp [hq]
+  obtain ⟨k1, k2⟩ := key_lemma [] cinit (by simp)
+  simp only [List.nil_append] at k1
+  by_cases hF : (rs.map (List.filter fun kv => kv.1 == κ)).flatten = []
+  · simp [hF, k2.mp hF]
+  · have hQ : ¬ (qs.map (List.filter fun x => key x == κ)).flatten = [] := fun h => hF (k2.mpr h)
+    simp only [hF, hQ, if_false, Option.some.injEq]
+    rw [k1]; simp [hQ]
+
+/-- **`foldby_eq`**: with `combine_initial` a left unit of `combine` and `binop/combine/initial` a
+    homomorphism, `Bag.foldby(key, binop, initial, combine, combine_initial)` is a dict with distinct keys
+    whose entry for every key is the sequential fold of the elements with that key — for every
+    partitioning and `split_every ≥ 2`. -/
+theorem foldby_eq (key : α → Nat) (binop : β → α → β) (init : β) (combine : β → β → β) (cinit : β)
+    (hunit : ∀ a, combine cinit a = a)
+    (hom : ∀ q₁ q₂ : List α, (q₁ ++ q₂).foldl binop init = combine (q₁.foldl binop init) (q₂.foldl binop init))
+    (se : Nat) (hse : 2 ≤ se) (b : Bag α) :
+    ∃ r, foldbyB key binop init combine cinit se b = some r ∧ (r.map (·.1)).Nodup ∧
+      ∀ κ, r.lookup κ = foldbySpec key binop init (den b) κ := by
+  obtain ⟨r, hr⟩ := Option.isSome_iff_exists.mp
+    (plainTree_isSome (mergeDicts combine cinit) se hse (b.map fun p => reduceBy key binop init p))
+  refine ⟨r, hr, ?_⟩
+  have hleaves : ∀ bs : Bag α, All2 (FoldbyInv key binop init) bs (bs.map fun p => reduceBy key binop init p) := by
+    intro bs
+    induction bs with
+    | nil => exact .nil
+    | cons p ps ih => exact .cons (reduceBy_inv key binop init p) ih
+  exact plainTree_inv (FoldbyInv key binop init) (mergeDicts combine cinit)
+    (fun qs rs hall => mergeDicts_inv key binop init combine cinit hunit hom hall) se (hleaves b) r hr
+
+example : foldbyB (fun x : Int => (x % 3).toNat) (· + ·) 0 (· + ·) 0 2 [[1, 2, 4], [], [3, 5], [7]] =
+    some [(1, 12), (2, 7), (0, 3)] := by decide
+
+/-! ## frequencies -/
+
+theorem foldl_count (q : List Nat) (a : Nat) : q.foldl (fun c _ => c + 1) a = a + q.length := by
+  induction q generalizing a with
+  | nil => simp
+  | cons x xs ih => simp only [List.foldl_cons, List.length_cons]; rw [ih]; omega
+
+/-- folding the items of a dict with distinct keys into the empty dict rebuilds it -/
+theorem foldl_items_self (d pre : List (Nat × Nat)) (h : ((pre ++ d).map (·.1)).Nodup) :
+    d.foldl (fun acc kv => alUpdate kv.1 (fun o => o.getD 0 + kv.2) acc) pre = pre ++ d := by
+  induction d generalizing pre with
+  | nil => simp
+  | cons kv rest ih =>
+    simp only [List.foldl_cons]
+    have hnew : alUpdate kv.1 (fun o => o.getD 0 + kv.2) pre = pre ++ [kv] := by
+      have hnot : kv.1 ∉ pre.map (·.1) := by
+        simp only [List.map_append, List.map_cons] at h
+        have := (List.nodup_append.mp h).2.2 kv.1
+        intro hm
+        exact this hm kv.1 (by simp) rfl
+      clear h ih
+      induction pre with
+      | nil => simp [alUpdate]
+      | cons p ps ihp =>
+        simp only [List.map_cons, List.mem_cons, not_or] at hnot
+        have : ¬ p.1 = kv.1 := fun h => hnot.1 h.symm
+        simp only [alUpdate, this, if_false, List.cons_append]
+        rw [ihp hnot.2]
+    rw [hnew, ih (pre ++ [kv]) (by simpa [List.append_assoc] using h)]
+    simp [List.append_assoc]
+
+theorem mergeFrequencies_eq (ds : List (List (Nat × Nat))) (h : ∀ d ∈ ds, (d.map (·.1)).Nodup) :
+    mergeFrequencies ds = mergeDicts (· + ·) 0 ds := by
+  cases ds with
+  | nil => rfl
+  | cons d rest =>
+    have hd := h d (by simp)
+    have hself := foldl_items_self d [] (by simpa using hd)
+    cases rest with
+    | nil =>
+      simp only [mergeFrequencies, mergeDicts, List.flatten_cons, List.flatten_nil, List.append_nil]
+      simpa using hself.symm
+    | cons d' rest' =>
+      simp only [mergeFrequencies, mergeDicts, List.flatten_cons, List.foldl_append]
+      rw [hself]; simp
+
+/-- **`frequencies`**: a dict with distinct keys, the entry of `κ` is its number of occurrences in the bag
+    (absent when it does not occur) — `collections.Counter(seq)` -/
+theorem bag_frequencies_eq (se : Nat) (hse : 2 ≤ se) (b : Bag Nat) :
+    ∃ r, frequenciesB se b = some r ∧ (r.map (·.1)).Nodup ∧
+      ∀ κ, r.lookup κ = if (den b).count κ = 0 then none else some ((den b).count κ) := by
+  have hsome : (frequenciesB se b).isSome := reductionIx_isSome _ _ se hse b
+  obtain ⟨r, hr⟩ := Option.isSome_iff_exists.mp hsome
+  have hinv := reductionIx_inv (FoldbyInv (fun x : Nat => x) (fun c _ => c + 1) 0) _ _
+    (fun _ p => reduceBy_inv (fun x : Nat => x) (fun c _ => c + 1) 0 p)
+    (by
+      intro _ _ qs rs hall
+      have hnd : ∀ d ∈ rs, (d.map (·.1)).Nodup := by
+        intro d hd
+        clear hr
+        induction hall with
+        | nil => simp at hd
+        | cons hab _ ih =>
+          rcases List.mem_cons.mp hd with rfl | hd
+          · exact hab.1
+          · exact ih hd
+      show FoldbyInv _ _ _ qs.flatten (mergeFrequencies rs)
+      rw [mergeFrequencies_eq rs hnd]
+      exact mergeDicts_inv (fun x : Nat => x) (fun c _ => c + 1) 0 (· + ·) 0 (by intro a; omega)
+        (by intro q₁ q₂; rw [foldl_count, foldl_count, foldl_count, List.length_append]; omega) hall) se b r hr
+  refine ⟨r, hr, hinv.1, fun κ => ?_⟩
+  rw [hinv.2 κ]
+  simp only [foldbySpec, foldl_count, Nat.zero_add, den]
+  have hc : (b.flatten.filter fun x => x == κ).length = b.flatten.count κ := by
+    rw [List.count_eq_length_filter]
+  by_cases h0 : b.flatten.count κ = 0
+  · have : b.flatten.filter (fun x => x == κ) = [] := List.length_eq_zero_iff.mp (by rw [hc]; exact h0)
+    simp [h0, this]
+  · have : ¬ b.flatten.filter (fun x => x == κ) = [] := by
+      intro hnil; rw [hnil] at hc; exact h0 hc.symm
+    simp only [h0, this, if_false, Option.some.injEq]
+    exact hc
+
+example : frequenciesB 2 [[3, 1, 3], [], [1, 2], [3]] = some [(3, 3), (1, 2), (2, 1)] := by decide
 
 end Dask.C48
